@@ -214,8 +214,20 @@ func taintedValues(f *ssa.Function, spec taintSpec) map[ssa.Value]bool {
 		for _, r := range *refs {
 			switch x := r.(type) {
 			case *ssa.Phi, *ssa.ChangeInterface, *ssa.MakeInterface, *ssa.ChangeType, *ssa.Convert,
-				*ssa.TypeAssert, *ssa.Extract, *ssa.Field, *ssa.Index, *ssa.Lookup, *ssa.Slice, *ssa.Next, *ssa.Range:
+				*ssa.TypeAssert, *ssa.Extract, *ssa.Field, *ssa.Next, *ssa.Range:
 				add(x.(ssa.Value))
+			case *ssa.Index:
+				if x.X == v { // the container operand, not the index
+					add(x)
+				}
+			case *ssa.Lookup:
+				if x.X == v {
+					add(x)
+				}
+			case *ssa.Slice:
+				if x.X == v {
+					add(x)
+				}
 			case *ssa.UnOp:
 				add(x)
 			case *ssa.FieldAddr:
@@ -223,7 +235,9 @@ func taintedValues(f *ssa.Function, spec taintSpec) map[ssa.Value]bool {
 				// the field holds container data; conservative: propagate
 				add(x)
 			case *ssa.IndexAddr:
-				add(x)
+				if x.X == v {
+					add(x)
+				}
 			case *ssa.Store:
 				// storing a tainted value into a local alloc taints the alloc's loads
 				if x.Val == v {
